@@ -70,6 +70,16 @@ def install_env(ex):
         ex.env['deliveries'].append({'app': proto, 'message': message, 'session': caller, 'control': control})
         return Agg('Result', {0: UNIT}, 0)
 
+    @M(r'^ArpTable::set_mac$')
+    def arp_set_mac(ex, c, a):
+        ex.env.setdefault('arp_sets', []).append((a[1], a[2]))
+        return UNIT
+
+    @M(r'^<dyn Session as Session>::send$')
+    def dyn_session_send(ex, c, a):
+        ex.env.setdefault('sends', []).append(a[1])
+        return Agg('Result', {0: UNIT}, 0)
+
     @M(r'^receive_message_event$|^send_message_event$|^logging::')
     def logging_noop(ex, c, a):
         return UNIT
@@ -271,6 +281,37 @@ def run_malformed_unit(ex, H, unit, res):
                 wellformed = b_and(ex.binop('Eq', lenf, U16(n), False), ex.binop('Eq', raw[6], Int(8, 0), False), ex.binop('Eq', raw[7], Int(8, 0), False))
             else:
                 wellformed = False
+        elif layer == 'tcp':
+            # no session, no listener: every segment is dropped with an error; a reset may be sent back only for a segment that decodes
+            tcp = {'t': Agg('Tcp', {0: MapV('DashMap', []), 1: MapV('DashMap', [])})}
+            iph = H.make('ip', U16(20 + n), U16(0), False, sym_int('ipid', 16), ipaddr_of_u32(ex, sym_int('src', 32)), ipaddr_of_u32(ex, sym_int('dst', 32)), Int(8, 6), sym_int('ttl', 8))
+            ex.call('Control::insert::<Ipv4Header>', [Ref(ch, 'c'), clone_val(iph)])
+            before = 0
+            r = ex.call('<Tcp as Protocol>::demux', [Ref(tcp, 't'), msg, caller, ch['c'], clone_val(machine)])
+            after = len(tcp['t'].f[0].items) + len(tcp['t'].f[1].items)
+            wellformed = ex.binop('Eq', ex.binop('Shr', raw[12], Int(8, 4), False), Int(8, 5), False) if n >= 20 else False
+            if env.get('sends'):
+                okv, m = _valid(ex, wellformed)
+                if not okv:
+                    raise SpecViolation('c14:malformed-frame-answered', f'tcp: a segment whose header does not decode was answered with {len(env["sends"])} segment(s)', m)
+            if r.variant == 0:
+                raise SpecViolation('c14:dropped-frame-without-error', 'tcp: no session and no listener, but demux reported success')
+        elif layer == 'arp':
+            # a frame that does not decode as an ARP packet must not touch the ARP table (and must not crash); nothing is listening locally
+            arp = {'a': Agg('Arp', {0: MapV('DashMap', []), 1: Opaque('arp-table'), 2: none(), 3: none()})}
+            before = after = 0
+            r = ex.call('<Arp as Protocol>::demux', [Ref(arp, 'a'), msg, caller, ch['c'], clone_val(machine)])
+            if n >= 28:
+                oper = ex.binop('BitOr', ex.binop('Shl', ex.cast(raw[6], 'u16', 'IntToInt'), U16(8), False), ex.cast(raw[7], 'u16', 'IntToInt'), False)
+                wellformed = b_or(ex.binop('Eq', oper, U16(1), False), ex.binop('Eq', oper, U16(2), False))
+            else:
+                wellformed = False
+            if env.get('arp_sets'):
+                okv, m = _valid(ex, wellformed)
+                if not okv:
+                    raise SpecViolation('c14:malformed-frame-changed-arp-table', 'arp: a frame that does not decode as an ARP packet changed the ARP table', m)
+            res['obligations'] += 1
+            return f'arp: {n} arbitrary bytes -> ' + ('table updated (well-formed)' if env.get('arp_sets') else 'ignored')
         elif layer in ('dhcp-client', 'dhcp-server'):
             # a truncated DHCP message (shorter than the fixed part + two terminators) can never decode: the application-layer demux
             # must report an error, not crash
@@ -295,7 +336,7 @@ def run_malformed_unit(ex, H, unit, res):
                 raise SpecViolation('c14:malformed-frame-delivered', f'{layer}: a frame whose header does not decode was delivered to an application', m)
         if r.variant == 0 and not dl:
             raise SpecViolation('c14:dropped-frame-without-error', f'{layer}: the frame was dropped but demux reported success')
-        return f'{layer}: {n} arbitrary bytes -> ' + ('delivered (well-formed)' if dl else 'dropped with an error')
+        return f'{layer}: {n} arbitrary bytes -> ' + ('delivered (well-formed)' if dl else 'dropped with an error') + (f', answered with {len(env["sends"])} segment(s)' if env.get('sends') else '')
 
     def on_end(ex, kind, r):
         res['paths'] += 1
@@ -333,6 +374,8 @@ def run_malformed_unit(ex, H, unit, res):
 def malformed_units(tier):
     us = [{'layer': 'udp', 'nbytes': n} for n in ((0, 7, 8, 10) if tier == 'quick' else (0, 1, 4, 7, 8, 9, 12))]
     us += [{'layer': 'ipv4', 'nbytes': n} for n in ((0, 19, 20, 22) if tier == 'quick' else (0, 1, 10, 19, 20, 21, 24))]
+    us += [{'layer': 'tcp', 'nbytes': n} for n in ((0, 19, 20, 23) if tier == 'quick' else (0, 1, 12, 13, 19, 20, 21, 24))]
+    us += [{'layer': 'arp', 'nbytes': n} for n in ((0, 27, 28) if tier == 'quick' else (0, 1, 7, 8, 27, 28, 30))]
     us += [{'layer': l, 'nbytes': n} for l in ('dhcp-client', 'dhcp-server') for n in ((0, 31) if tier == 'quick' else (0, 1, 16, 30, 31))]
     return us
 
